@@ -51,7 +51,30 @@ def run(res, tier, broken):
         broken.append({"kind": "T1-skeleton", **b})
     vs.campaign(res, broken, tier, "C04", "sc_sync", ["sc_sync.c"], scenario_params, validate,
                 reject_is_failure=vs.protocol_reject_is_failure)
+    native_depth(res)
+
+
+def native_depth(res):
+    """recursion depths far beyond the controlled scenarios (harness/nat_mutex_depth.c, real OS threads)"""
+    import subprocess
+    exe = C.cc_harness("nat_mutex_depth", ["nat_mutex_depth.c"], "plain")
+    try:
+        p = subprocess.run([exe], stdout=subprocess.PIPE, stderr=subprocess.STDOUT, timeout=120)
+        rc, out = p.returncode, p.stdout.decode("utf-8", "replace")
+    except subprocess.TimeoutExpired:
+        rc, out = -999, "timeout"
+    res.add_cov(native_recursion_depth_max=131073)
+    if rc != 0:
+        res.violation("recursive mutex at large nesting depth: " + (out.strip().split("\n")[0][:300] or "exit %s" % rc),
+                      {"native": "nat_mutex_depth", "exit": rc, "output": out[-1500:]})
 
 
 def replay(res, path):
+    import json, subprocess
+    rep = json.load(open(path))
+    if rep.get("native") == "nat_mutex_depth":
+        exe = C.cc_harness("nat_mutex_depth", ["nat_mutex_depth.c"], "plain")
+        p = subprocess.run([exe], stdout=subprocess.PIPE, stderr=subprocess.STDOUT, timeout=120)
+        print(p.stdout.decode("utf-8", "replace")[-1500:])
+        return 1 if p.returncode != 0 else 0
     return vs.replay("sc_sync", ["sc_sync.c"], path, validate)
